@@ -18,4 +18,18 @@ theorem isReportable_comparisons : Facts.llo_IsReportable_cmps =
      "obsTsNanos - validAfterNanos < minReportInterval", "protocolVersion == 0",
      "validAfterSeconds >= obsTsSeconds"] := rfl
 
+/-- the decision points of `observation()` as transcribed in `DSV/LLO/Observe.lean` -/
+theorem observation_decision_points : Facts.llo_observation_ifs =
+    ["outctx.SeqNr < 1", "outctx.SeqNr == 1", "obsTSNanos < 0",
+     "previousOutcome.LifeCycleStage == LifeCycleStageRetired",
+     "VerifyChannelDefinitions(p.ReportCodecs, previousOutcome.ChannelDefinitions); err != nil",
+     "p.PredecessorConfigDigest != nil && previousOutcome.LifeCycleStage == LifeCycleStageStaging",
+     "err2 != nil", "obs.ShouldRetire && p.Config.VerboseLogging",
+     "VerifyChannelDefinitions(p.ReportCodecs, expectedChannelDefs); err != nil",
+     "exists && prev.Equals(channelDefinition)",
+     "len(obs.UpdateChannelDefinitions) >= MaxObservationUpdateChannelDefinitionsLength",
+     "len(obs.UpdateChannelDefinitions) > 0", "len(obs.RemoveChannelIDs) > 0",
+     "len(previousOutcome.ChannelDefinitions) == 0",
+     "p.DataSource.Observe(observationCtx, obs.StreamValues, &dsOpts{…}); err != nil"] := rfl
+
 end DSV.Props.C04.Facts
